@@ -177,12 +177,36 @@ func c07Doc(r *rand.Rand, variant int) (*sbom.Document, string) {
 				t := sbom.DocumentType_SBOMType(r.Intn(10))
 				dt.Type = &t
 			}
+			// free-text members: arbitrary text, or (half of the time) text that spells one of the enumeration's own
+			// words in some letter case, possibly with blanks around it
+			word := func() string {
+				if r.Intn(2) == 0 {
+					return o.Text(r)
+				}
+				vals := sbom.DocumentType_SBOMType(0).Descriptor().Values()
+				w := string(vals.Get(r.Intn(vals.Len())).Name())
+				if dt.Type != nil && r.Intn(2) == 0 {
+					if v := vals.ByNumber(dt.Type.Number()); v != nil {
+						w = string(v.Name()) // the entry's own kind, spelled out
+					}
+				}
+				switch r.Intn(3) {
+				case 0:
+					w = strings.ToLower(w)
+				case 1:
+					w = w[:1] + strings.ToLower(w[1:])
+				}
+				if r.Intn(4) == 0 {
+					w = " " + w + " "
+				}
+				return w
+			}
 			if m&2 != 0 {
-				s := o.Text(r)
+				s := word()
 				dt.Name = &s
 			}
 			if m&4 != 0 {
-				s := o.Text(r)
+				s := word()
 				dt.Description = &s
 			}
 			doc.Metadata.DocumentTypes = append(doc.Metadata.DocumentTypes, dt)
@@ -248,7 +272,7 @@ func c07Normalise(b []byte) (string, error) {
 func init() {
 	core.Register(&core.Prop{
 		ID: "C07", Level: "exploration",
-		Rule: "each case builds 4 Document values (variant k mod 12 forced for the first: nil metadata, nil node list, both nil, NewDocument, no roots, many roots, cyclic containment, random cyclic containment below several top-level components (serialized 11 times), dangling root, nil maps/slices, every subset of DocumentType's optional fields, non-numeric version, plain populated; " +
+		Rule: "each case builds 4 Document values (variant k mod 12 forced for the first: nil metadata, nil node list, both nil, NewDocument, no roots, many roots, cyclic containment, random cyclic containment below several top-level components (serialized 11 times), dangling root, nil maps/slices, every subset of DocumentType's optional fields (names and descriptions arbitrary or spelling one of the enumeration's words), non-numeric version, plain populated; " +
 			"reflection-populated fields, unknown enum numbers, empty/duplicate/generated ids, dangling edge endpoints, arbitrary text incl. invalid UTF-8; half of them passed through proto.Marshal/Unmarshal) and serializes them in all 8 registered formats (CycloneDX 1.0-1.5, SPDX 2.3, SPDX 3 beta) " +
 			"in the schedule d0,d1,d0,d2,d3,d0 inside a supervised child: recover() catches panics, the parent attributes process deaths, the CPU/heap watchdog decides hangs; the three outputs of d0 per format must be equal after removing creation timestamps and sorting all arrays; " +
 			"the serialized document must be unchanged. Nodes also carry several identifiers competing for one output slot (one possibly empty), identifiers that look like generated ones (reserved prefix with the separator missing, empty flags, bare separators), present-but-empty map values, empty and repeated list elements. Every third block of 12 cases then changes the same Document object in place (fields edited, a node added, or refilled with another document) between two serializations per format and compares with the output of a fresh copy. distinct = hash of (variant, d0); non-trivial = d0 has nodes or lacks metadata/node list.",
